@@ -32,6 +32,10 @@ COMBOS = {
     "s0N-r0N": (False, False, False, False),
 }
 COMBO_NAMES = list(COMBOS)
+# admitted by the compatibility clause as well ("the pattern has no terms of the kind"), but it is the recorded
+# finding C06-orphan-coefficient-table: generated only by its own small stream (orphan_case), never at random
+ORPHAN = "sN-r0T"
+COMBOS[ORPHAN] = (True, False, False, True)
 
 
 def masses():
@@ -157,6 +161,8 @@ def make_replacement(rng, pat_elems, pat_pos, cfg, side="r", allow_empty=True):
         table = []
         if r_table:
             top = max([t["ty"] for t in terms], default=-1) + 1 + rng.randint(0, 1)
+            if cfg["combo"][k] == ORPHAN:
+                top = 3          # an unused entry for every type id the structure may use
             table = [coeff_text(side, k, i, rng) for i in range(max(top, 1))]
         rj["terms"][k] = terms
         rj["types"][k] = table
@@ -204,7 +210,7 @@ def make_structure(rng, geo, rj, rinfo, cfg):
     planted = [list(g) for g in geo["planted"]]
     # planted copy c: search atom j sits at structure index base_c + j (atoms are appended in pattern order)
     bases = [min(g) for g in planted]
-    nby = rng.randint(2, 5)
+    nby = max(rng.randint(2, 5), cfg.get("min_bystanders", 0))
     by_el = rng.choice(BYSTANDER_ELEMENTS)
     for _ in range(nby):
         f = np.array([rng.random() for _ in range(3)])
@@ -341,9 +347,21 @@ PATTERN_POOL = ["asym4", "asym5", "chiral", "ch3", "planar4", "bent", "collinear
                 "pair_same"]
 
 
-def synthetic_case(rng, combos=None, pname=None, big=False):
+def orphan_case(rng, kind):
+    """the input class of the known finding C06-orphan-coefficient-table for `kind`: the structure has terms of the
+    kind without a coefficient table, the pattern a coefficient table of the kind without terms"""
+    combos = {k: rng.choice(COMBO_NAMES) for k in KINDS}
+    combos[kind] = ORPHAN
+    case = synthetic_case(rng, combos=combos, extra={"min_bystanders": 5})
+    case["opts"]["fraction"] = 1.0
+    case["meta"]["stream"] = "orphan:" + kind
+    return case
+
+
+def synthetic_case(rng, combos=None, pname=None, big=False, extra=None):
     """one single-step case: dict(s, p, r, opts, meta)"""
     cfg = random_cfg(rng, combos)
+    cfg.update(extra or {})
     pname = pname or rng.choice(PATTERN_POOL[:5] * 3 + PATTERN_POOL)
     geo = findlib.planted_structure(rng, pname=pname, cell_kind=rng.choice(["ortho", "ortho", "tri+", "tri-", "rot"]),
                                     ncopies=rng.randint(1, 3 if not big else 4), decoys=rng.random() < 0.5)
